@@ -14,7 +14,7 @@ RULE = ('random part: generated annotation (all placements and kinds, multiplier
 ASSUMPTIONS = [
     'the composition is weighed with pv/refchem.py (second weigher: the library chem_mass)',
     'average mode: named modifications restricted to C,H,N,O,P,S compositions (the upstream table uses other atomic weights for metals); PSI-MOD rows must be self-consistent as decided from the OBO file alone',
-    'tolerances as stated: 1e-4 Da monoisotopic; average mode 1e-3 Da + 5 ppm of the modification mass, the 1e-3 allowance counted once per tabulated (named) modification instance because each tabulated average mass is rounded separately (PSI-MOD: 2 decimals)',
+    'tolerances as stated: 1e-4 Da monoisotopic; average mode 1e-3 Da + 5 ppm of the modification mass per table entry used (at least 1e-3): each tabulated average mass is rounded separately (PSI-MOD: 2 decimals), a glycan uses one entry per monosaccharide unit; numeric shifts and formulas earn no allowance',
 ]
 
 IONS = ['p', 'n', 'a', 'b', 'c', 'x', 'y', 'z', 'ax', 'ay', 'az', 'bx', 'by', 'bz', 'cx', 'cy', 'cz', 'i']
@@ -47,15 +47,21 @@ def check_case(case) -> Result:
     ctx = dict(sequence=s, args=dict(kw), mono=mono)
     m = pt.mass(s, monoisotopic=mono, **kw)
     c, d = pt.comp_mass(s, **kw)
-    modsum = sum(abs(refmods.resolve(t)['mono'] * mm) for t, mm in mods)
-    n_tab = sum(mm for t, mm in mods if refmods.resolve(t)['kind'] in ('unimod', 'psimod', 'glycan'))
-    tol = 1e-4 if mono else 1e-3 * (1 + n_tab) + 5e-6 * modsum  # every tabulated average mass carries its own rounding
+    # every tabulated average mass carries its own rounding: 1e-3 + 5 ppm per table entry used (a glycan uses one entry per unit)
+    tab = [(k, mm) for k, (_t, mm) in zip(kinds, mods) if k['kind'] in ('unimod', 'psimod', 'glycan')]
+    n_tab = sum(abs(mm) * k.get('units', 1) for k, mm in tab)
+    tol = 1e-4 if mono else 1e-3 * max(1, n_tab) + 5e-6 * sum(abs(k['mono'] * mm) for k, mm in tab)
     w = refchem.comp_mass(c, mono) + d
     if abs(m - w) > tol:
         sig = f'C03/mass-vs-composition/{"mono" if mono else "average"}'
         el = refchem.ELECTRON
         k = (m - w) / el
-        if adducts is not None and abs(m - w - (refmass.adduct_mass_library_quirk(adducts, mono) - refmass.adduct_mass(adducts, mono))) <= tol:
+        dh = refchem.atom_mass('H', False) - refchem.atom_mass('H', True)
+        if not mono and adducts is None and charge and any(abs(m - w + kk * dh) <= tol for kk in (charge, charge - (1 if charge > 0 else -1))):
+            # average mode: the mass calculator weighs a charge carrier as a proton, the composition lists it as H and -1 e, and
+            # average hydrogen is 1.15e-4 heavier than 1H; alone inside the allowance, together with a rounded table mass not always
+            sig = 'C03/average/charge-carriers-weighed-as-protons-on-top-of-table-rounding'
+        elif adducts is not None and abs(m - w - (refmass.adduct_mass_library_quirk(adducts, mono) - refmass.adduct_mass(adducts, mono))) <= tol:
             sig = 'C03/adduct-electrons-not-multiplied-by-ion-count'
         elif abs(k - round(k)) < 0.02 and round(k) != 0 and abs(k) <= 4 and mono:
             sig = f'C03/electron-count/{ion}'
@@ -98,7 +104,7 @@ def check_entry(case) -> Result:
     r.nontrivial = True
     r.classes = [db]
     name = e['name']
-    if e['comp'] is None or not gen._bal(name) or '>' in name or '@' in name or '|' in name or '#' in name:
+    if e['comp'] is None or not gen._bal(name) or '|' in name or '#' in name:
         r.classes.append('skipped')
         r.nontrivial = False
         return r
@@ -110,6 +116,8 @@ def check_entry(case) -> Result:
         if not mono and not refmods.chnops_only(e['comp']):
             continue
         for where, s in (('residue', f'PEPT[{sp}]K'), ('static', f'<[{sp}]@T>PEPTK'), ('nterm', f'[{sp}]-PEPTK')):
+            if where == 'static' and '@' in name:
+                continue
             m = pt.mass(s, monoisotopic=mono)
             c, d = pt.comp_mass(s)
             w = refchem.comp_mass(c, mono) + d
@@ -118,6 +126,36 @@ def check_entry(case) -> Result:
                 r.fail('mass == mass(composition) for every table entry', f'C03/entry/{db}/{where}/{"mono" if mono else "average"}',
                        entry=name, sequence=s, mass=m, composition_mass=w, diff=m - w)
     return r
+
+
+def check_sugar(case) -> Result:
+    """every bundled monosaccharide name and synonym x count 1..4 x residue / static rule / labile x both modes"""
+    import peptacular as pt
+    r = Result()
+    nm, cnt = case['name'], case['count']
+    r.nontrivial = True
+    r.classes = ['monosaccharide', f'count={cnt}']
+    sp = f'Glycan:{nm}{cnt}'
+    k = refmods.resolve(sp)
+    for mono in (True, False):
+        for where, s in (('residue', f'PEPT[{sp}]K'), ('static', f'<[{sp}]@T>PEPTK'), ('labile', '{' + sp + '}PEPTK')):
+            if where == 'static' and not nm.isalnum():
+                continue
+            m = pt.mass(s, monoisotopic=mono)
+            c, d = pt.comp_mass(s)
+            w = refchem.comp_mass(c, mono) + d
+            tol = 1e-4 if mono else cnt * (1e-3 + 5e-6 * abs(k['mono']) / cnt)
+            if abs(m - w) > tol:
+                r.fail('mass == mass(composition) for every monosaccharide', f'C03/entry/monosaccharide/{where}/{"mono" if mono else "average"}',
+                       entry=nm, sequence=s, mass=m, composition_mass=w, diff=m - w)
+    return r
+
+
+def sugar_cases():
+    for e in obo.monosaccharides():
+        for nm in [e['name']] + list(e['synonyms']):
+            for cnt in (1, 2, 3, 4):
+                yield {'name': nm, 'count': cnt}
 
 
 def entry_cases():
@@ -153,5 +191,7 @@ def parts(tier):
     return [
         Part(name='entries', kind='enum', check_case=check_entry, cases=entry_cases, shards=16, exhaustive=True,
              space='every Unimod entry (average mode: C,H,N,O,P,S compositions) and every self-consistent PSI-MOD row, as residue, static-rule and N-terminal modification'),
+        Part(name='monosaccharides', kind='enum', check_case=check_sugar, cases=sugar_cases, shards=8, exhaustive=True,
+             space='every bundled monosaccharide name and synonym x count 1..4, as residue, static-rule and labile modification, both modes'),
         Part(name='agreement', kind='hyp', check_case=check_case, strategy=strategy, examples=n),
     ]
